@@ -1146,8 +1146,15 @@ def run_tracker(ordered, ttl, ops):
 
     inside = []
 
+    # (the questions are asked in every other history only: n_latest_tracks is read-only for the caller, but an
+    # implementation may tidy its table while answering - a history without questions must be right as well)
+    import zlib
+    asks = zlib.crc32(' '.join(ops).encode()) % 2 == 0
+
     def any_event(t):
         calls[0] += 1
+        if not asks:
+            return
         # "at every moment": what the tracker answers while it is delivering an event (read-only questions)
         try:
             now_tracks = tr.tracks
